@@ -197,12 +197,14 @@ def unit_level(ctx, stats):
     ref_lines = [bp_line(w, 1, mb, 0, 0) for w in wls for mb in mbs_ref]
     mod_lines = [model_line(w, mb) for w in wls for mb in mbs_ref]
     spec_lines = [model_line(w, 0, "spec") for w in wls]
+    state_lines = [model_line(w, mb, "state") for w in wls for mb in mbs_ref]
     t0 = time.time()
     impl, problems = run_parallel(ctx, [str(h)], lines, 1500)
     ref, rproblems = run_parallel(ctx, [str(hs)], ref_lines, 900, pin=False)
     t1 = time.time()
     mod = model_run(ctx, mod_lines)
     spec = model_run(ctx, spec_lines)
+    state = model_run(ctx, state_lines)
     t2 = time.time()
     for pb in (problems + rproblems)[:3]:
         ctx.violation("crash:" + vlib.sha(pb["script"])[:12],
@@ -236,6 +238,21 @@ def unit_level(ctx, stats):
                                   "model and real block processor (serial pool) differ: model=%s real=%s" % (m[:600], refs[k][:600]),
                                   {"kind": "unit-model", "model_line": mod_lines[wi * nref + k], "harness_line": ref_lines[wi * nref + k],
                                    "model": m, "real": refs[k]}, found_input=False)
+        # (a'') bookkeeping of the serial build: items submitted, largest number of items inside the pool (a function of the
+        # workload and max_backlog on the serial pool), everything written at the end
+        for k in range(nref):
+            _, tr = split_result(ref[wi * nref + k])
+            st = dict(kv.split("=") for kv in state[wi * nref + k].split()[1:]) if state[wi * nref + k].startswith("ok ") else {}
+            if tr and st and refs[k].startswith("ok "):
+                if (tr.get("sub"), tr.get("maxq")) != (st.get("sub"), st.get("maxq")) or (st.get("backlog"), st.get("ioq"), st.get("pending")) != ("0", "0", "0") \
+                        or st.get("seq") != st.get("deq"):
+                    corr_bad += 1
+                    if corr_bad <= 3:
+                        ctx.violation("corr-state:" + vlib.sha(state_lines[wi * nref + k])[:12],
+                                      "pool bookkeeping differs (max_backlog=%d): real sub=%s maxq=%s, model %s" % (
+                                          mbs_ref[k], tr.get("sub"), tr.get("maxq"), state[wi * nref + k]),
+                                      {"kind": "unit-state", "model_line": state_lines[wi * nref + k], "harness_line": ref_lines[wi * nref + k],
+                                       "model": state[wi * nref + k], "real": ref[wi * nref + k][-300:]}, found_input=False)
         # (a') the queue-free reference `packRef` evaluated on the implementation's behaviour
         if spec[wi] != want and want != "<no output>":
             corr_bad += 1
@@ -284,7 +301,7 @@ def unit_level(ctx, stats):
         "features": dict(sorted(feat.items())), "histogram": {k: dict(sorted(v.items())) for k, v in hist.items()},
         "property_violations": bad, "model_disagreements": corr_bad,
         "wall_s": {"harness": round(t1 - t0, 1), "model": round(t2 - t1, 1)}}
-    stats["evaluations"] += len(lines) + len(ref_lines) + len(mod_lines) + len(spec_lines)
+    stats["evaluations"] += len(lines) + len(ref_lines) + len(mod_lines) + len(spec_lines) + len(state_lines)
     stats["disagreements"] += bad + corr_bad
     stats["samples"] += [lines[0][:300], lines[len(lines) // 2][:300], mod_lines[-1][:300]]
     return h, hs
@@ -559,6 +576,29 @@ def tool_level(ctx, stats):
                     if len(samples) < 3:
                         samples.append("%s | env TZ=%s LC_ALL=%s umask=%o cwd=%s %s" % (" ".join(prefix + cmd)[-200:], env["TZ"], env["LC_ALL"], umask, cwd,
                                                                                         "faketime=" + env.get("C02_FAKE_TIME", "-")))
+                # SOURCE_DATE_EPOCH unset, two different wall clocks: the images must not differ (nothing reads the clock)
+                shas = []
+                for ft in ("1", "2000000000"):
+                    out = ctx.scratch / "c02_out.sqfs"
+                    if out.exists():
+                        out.unlink()
+                    cmd, stdin = tool_cmd(builds, "plain", flavour, inp, out, comp, ["-j", "3"])
+                    e = {"LD_PRELOAD": str(builds["timeshim"]), "C02_FAKE_TIME": ft, "TZ": rng.choice(ENV_CHOICES["TZ"])}
+                    env_full = ctx.san_env(e)
+                    env_full.pop("SOURCE_DATE_EPOCH", None)
+                    f = open(stdin, "rb") if stdin else subprocess.DEVNULL
+                    r = subprocess.run(cmd, stdin=f, stdout=subprocess.PIPE, stderr=subprocess.PIPE, env=env_full, cwd=str(ctx.scratch))
+                    if stdin:
+                        f.close()
+                    shas.append((r.returncode, sha_file(out)))
+                    runs += 1
+                if shas[0] != shas[1] or shas[0][0] != 0:
+                    bad += 1
+                    ctx.violation("tool-clock:%s:%s:%d" % (flavour, comp, ci), "with SOURCE_DATE_EPOCH unset the image depends on the wall clock "
+                                  "(time 1 vs 2000000000): %s vs %s" % (shas[0], shas[1]),
+                                  {"kind": "tool", "seed": ctx.seed, "tier": ctx.tier, "case": ci, "flavour": flavour, "comp": comp,
+                                   "variant": "plain", "extra": ["-j", "3"], "env": {"LD_PRELOAD": "x", "C02_FAKE_TIME": "2000000000", "SOURCE_DATE_EPOCH": SDE},
+                                   "umask": 0o022, "cwd": str(ctx.scratch), "prefix": [], "stderr": ""})
                 # ThreadSanitizer build: reports are results
                 if "tsan" in builds and (flavour in ("packdir", "tar")):
                     for (j, q) in ([(4, 3)] if quick else [(4, 3), (8, None), (2, 1)]):
@@ -673,6 +713,17 @@ def replay(ctx, path):
     body = json.loads(open(path).read())
     rp = body.get("replay", {})
     kind = rp.get("kind")
+    if kind == "unit-state":
+        h, hs = build_unit(ctx)
+        a = ctx.driver(["c02"], rp["model_line"] + "\n")[0]
+        b = vlib.sh([str(hs)], input=rp["harness_line"] + "\n", env=ctx.san_env(), timeout=600).stdout.strip()
+        _, tr = split_result(b)
+        st = dict(kv.split("=") for kv in a.split()[1:]) if a.startswith("ok ") else {}
+        print("model:", a)
+        print("real: ", b[-300:])
+        fail = (tr.get("sub"), tr.get("maxq")) != (st.get("sub"), st.get("maxq"))
+        print("REPRODUCED" if fail else "not reproduced")
+        return 1 if fail else 0
     if kind in ("unit", "unit-serial", "unit-model"):
         h, hs = build_unit(ctx)
         if kind == "unit":
